@@ -417,3 +417,10 @@ def _pol_collide(ctx):
 
 def policies(P):
     return {"complete": _pol_complete, "collide": _pol_collide}
+
+
+def qualify(P, clause, ev):
+    """Known-finding key: the generator's random walk mis-handles refused edges when the degree cap is tight."""
+    if clause in ("mmst_no_self_loops", "mmst_agent_block_connected", "mmst_graph_connected", "mmst_node_edges_match_adjacency"):
+        return "max_degree<=4" if P.params["degree"] <= 4 else ""
+    return ""
